@@ -417,6 +417,27 @@ func forSpecials() []model.Stmt {
 	out = append(out, model.Each{Var: "i", Arr: intArr(1, 2), Body: []model.Stmt{model.Text{S: "<"}, inner, model.Print{E: i}, model.Text{S: ">"}}})
 	out = append(out, model.For{Init: &model.Assign{Name: "v", E: lit(0)}, Cond: model.Binary{Op: "<", L: model.Var{Name: "v"}, R: lit(2)}, Post: model.Print{E: model.Postfix{Op: "++", X: model.Var{Name: "v"}}},
 		Body: []model.Stmt{model.Text{S: "<"}, innerEach, model.Print{E: model.Var{Name: "v"}}, model.Text{S: ">"}}})
+	// arrays that come out of built-ins: empty ones must take the @else branch, the iterated
+	// array must not change while the body builds other arrays from the same base
+	base3 := intArr(1, 2, 3)
+	callE := func(x model.Expr, name string, args ...model.Expr) model.Expr { return model.Call{X: x, Name: name, Args: args} }
+	vv := model.Var{Name: "v"}
+	elseNone := []model.Stmt{model.Text{S: " none"}}
+	show := []model.Stmt{model.Text{S: "["}, model.Print{E: vv}, model.Text{S: "]"}}
+	for _, arr := range []model.Expr{
+		callE(base3, "slice", lit(3)), callE(base3, "slice", lit(1), lit(1)), callE(base3, "slice", lit(7)), callE(callE(base3, "slice", lit(3)), "reverse"),
+		callE(model.ArrLit{}, "reverse"), callE(model.ArrLit{}, "shuffle"), callE(model.StrLit{S: ""}, "split", model.StrLit{S: "x"}),
+		callE(base3, "slice", lit(2)), callE(base3, "reverse"), callE(base3, "append", lit(4)), callE(base3, "prepend", lit(0)), callE(callE(base3, "slice", lit(0), lit(2)), "append", lit(9)),
+	} {
+		out = append(out, model.Each{Var: "v", Arr: arr, Body: show, Else: elseNone})
+		// as inner loop whose @else holds a @break for the outer loop
+		out = append(out, model.Each{Var: "o", Arr: intArr(1, 2), Body: []model.Stmt{model.Text{S: "<"}, model.Each{Var: "v", Arr: arr, Body: show, Else: []model.Stmt{model.Text{S: " none"}, model.Break{}}}, model.Text{S: ">"}}})
+	}
+	bvar := model.Var{Name: "base"}
+	out = append(out, model.If{Conds: []model.Expr{lit(1)}, Bodies: [][]model.Stmt{{model.Assign{Name: "base", E: base3},
+		model.Each{Var: "v", Arr: callE(bvar, "append", lit(4)), Body: []model.Stmt{model.Print{E: vv}, model.Text{S: ":"}, model.Print{E: callE(callE(bvar, "append", model.Binary{Op: "*", L: vv, R: lit(10)}), "len")}, model.Text{S: " "}}}}}})
+	out = append(out, model.If{Conds: []model.Expr{lit(1)}, Bodies: [][]model.Stmt{{model.Assign{Name: "base", E: model.ArrLit{Elems: []model.Expr{model.StrLit{S: "a"}, model.StrLit{S: "b"}, model.StrLit{S: "c"}}}},
+		model.Each{Var: "v", Arr: bvar, Body: []model.Stmt{model.Print{E: vv}, model.Text{S: "="}, model.Print{E: callE(callE(callE(bvar, "slice", lit(0), loopField("iter")), "append", model.StrLit{S: "-"}), "join", model.StrLit{S: ""})}, model.Text{S: " "}}}}}})
 	// empty bodies, with and without @else
 	out = append(out, model.Each{Var: "v", Arr: intArr(1, 2), Body: []model.Stmt{}, Else: []model.Stmt{model.Text{S: " never"}}})
 	out = append(out, model.Each{Var: "v", Arr: model.ArrLit{}, Body: []model.Stmt{}, Else: []model.Stmt{model.Text{S: " empty"}}})
